@@ -488,6 +488,34 @@ impl std::fmt::Debug for ThunkBlock {
     }
 }
 
+/// Verification hook (C11): runs the real `assign_thunk_blocks` on plain integer ranges.
+#[cfg(feature = "verif")]
+pub(crate) mod verif_c11 {
+    use super::FileId;
+
+    /// Returns `(num_blocks, calls)` where `calls` is the sequence of `assign` callbacks
+    /// `(object_index, block_id, is_owner)` in the order they were made.
+    pub(crate) fn assign(
+        ranges: &[(u64, u64)],
+        max_branch_range: u64,
+    ) -> (usize, Vec<(u32, u32, bool)>) {
+        let mut calls = Vec::new();
+        let num_blocks = super::assign_thunk_blocks(
+            ranges
+                .iter()
+                .enumerate()
+                .map(|(i, &(start, end))| (FileId::new(0, i as u32), start, end)),
+            max_branch_range,
+            |fid, bid, is_owner| calls.push((fid.file() as u32, bid.0, is_owner)),
+        );
+        (num_blocks, calls)
+    }
+
+    pub(crate) fn maximum_thunk_bytes_per_block() -> u64 {
+        super::MAXIMUM_THUNK_BYTES_PER_BLOCK
+    }
+}
+
 #[cfg(test)]
 mod tests {
     use super::*;
